@@ -1,7 +1,8 @@
 //! C02 correspondence: schemas assembled at run time with the dynamic-schema
 //! API.  The first type system is the one of harness/src/family.rs (objects
 //! Query/Mutation/A/B/C with the same 18 fields, interfaces Node and Named,
-//! union Pair, enum Kind); further type systems are generated.  Resolvers are
+//! union Pair, enum Kind), the second a fixed interface hierarchy (P <- Ch <- G);
+//! further type systems are generated (interface inheritance included).  Resolvers are
 //! data-driven: what a resolver returns is read from a world keyed by
 //! (node id, field) and converted into a `FieldValue` (see `top_fv`/`item_fv`,
 //! mirrored by `hfails`/`dyn_exec` in coq/theories/DynExec.v).
@@ -30,6 +31,8 @@ struct ObjDesc {
 struct TypeSys {
     objects: Vec<ObjDesc>,
     interfaces: Vec<(String, Vec<(String, String)>)>,
+    /// interface -> the interfaces it declares to implement (transitively closed)
+    iface_implements: Vec<(String, Vec<String>)>,
     unions: Vec<(String, Vec<String>)>,
     enums: Vec<(String, Vec<String>)>,
     mutation: bool,
@@ -102,6 +105,10 @@ impl TypeSys {
         }
         out
     }
+    /// every composite type that is not a root
+    fn all_conds(&self) -> Vec<String> {
+        self.objects.iter().map(|o| o.name.clone()).chain(self.interfaces.iter().map(|i| i.0.clone())).chain(self.unions.iter().map(|u| u.0.clone())).filter(|t| !self.is_root(t)).collect()
+    }
     fn all_field_names(&self) -> Vec<String> {
         let mut v: Vec<String> = vec![];
         for o in &self.objects {
@@ -132,13 +139,40 @@ fn family_sys() -> TypeSys {
             ("Node".into(), vec![("id".into(), "Int!".into()), ("name".into(), "String".into())]),
             ("Named".into(), vec![("name".into(), "String".into())]),
         ],
+        iface_implements: vec![],
         unions: vec![("Pair".into(), vec!["A".into(), "B".into()])],
         enums: vec![("Kind".into(), vec!["X".into(), "Y".into()])],
         mutation: true,
     }
 }
 
-/// a generated type system: 2-5 object types, 0-2 interfaces, 0-2 unions, 0-1 enums
+/// a fixed type system with an interface hierarchy: P <- Ch <- G, objects implementing
+/// {P}, {Ch, P}, {G, Ch, P} and nothing, every object with the same fields
+fn inherit_sys() -> TypeSys {
+    let fs: Vec<(String, String)> = [
+        ("id", "Int!"), ("name", "String"), ("flag", "Boolean"), ("ps", "[P!]!"), ("chs", "[Ch]"), ("g", "G"), ("p", "P"),
+        ("u", "U"), ("us", "[U!]"), ("plain", "Plain"), ("mids", "[Mid!]"),
+    ]
+    .iter()
+    .map(|(a, b)| (a.to_string(), b.to_string()))
+    .collect();
+    let obj = |n: &str, imp: &[&str]| ObjDesc { name: n.into(), fields: fs.clone(), implements: imp.iter().map(|s| s.to_string()).collect() };
+    let f = |l: &[(&str, &str)]| -> Vec<(String, String)> { l.iter().map(|(a, b)| (a.to_string(), b.to_string())).collect() };
+    TypeSys {
+        objects: vec![obj("Query", &[]), obj("Mutation", &[]), obj("Plain", &["P"]), obj("Mid", &["Ch", "P"]), obj("Deep", &["G", "Ch", "P"]), obj("Loose", &[])],
+        interfaces: vec![
+            ("P".into(), f(&[("id", "Int!")])),
+            ("Ch".into(), f(&[("id", "Int!"), ("name", "String")])),
+            ("G".into(), f(&[("id", "Int!"), ("name", "String"), ("flag", "Boolean")])),
+        ],
+        iface_implements: vec![("Ch".into(), vec!["P".into()]), ("G".into(), vec!["Ch".into(), "P".into()])],
+        unions: vec![("U".into(), vec!["Plain".into(), "Mid".into(), "Deep".into(), "Loose".into()])],
+        enums: vec![],
+        mutation: true,
+    }
+}
+
+/// a generated type system: 2-5 object types, 0-3 interfaces (with interface inheritance), 0-2 unions, 0-1 enums
 fn gen_sys(r: &mut Rng) -> TypeSys {
     let nobj = 2 + r.below(4);
     let onames: Vec<String> = (0..nobj).map(|i| format!("O{i}")).collect();
@@ -146,23 +180,50 @@ fn gen_sys(r: &mut Rng) -> TypeSys {
     if r.chance(2, 3) {
         ts.enums.push(("E0".into(), vec!["P".into(), "Q".into(), "R".into()]));
     }
-    let nif = r.below(3);
-    // interface fields are leaf fields every implementor gets
+    let nif = r.below(4);
+    // interface fields are leaf fields every implementor gets; an interface may implement
+    // the previous ones (it then repeats their fields, and lists its parents' parents too)
     let leafs = ["Int", "Int!", "String", "Float", "Boolean!"];
     for i in 0..nif {
         let mut fs = vec![(format!("i{i}"), r.pick(&leafs).to_string())];
         if r.chance(1, 2) {
             fs.push((format!("j{i}"), r.pick(&leafs).to_string()));
         }
+        let mut parents: Vec<String> = vec![];
+        if i > 0 && r.chance(2, 3) {
+            let par = r.below(i);
+            parents.push(format!("I{par}"));
+            if let Some(pp) = ts.iface_implements.iter().find(|x| x.0 == format!("I{par}")) {
+                parents.extend(pp.1.iter().cloned());
+            }
+            for pn in parents.clone() {
+                for f in &ts.interfaces.iter().find(|x| x.0 == pn).unwrap().1 {
+                    if !fs.iter().any(|x| x.0 == f.0) {
+                        fs.push(f.clone());
+                    }
+                }
+            }
+        }
         ts.interfaces.push((format!("I{i}"), fs));
+        if !parents.is_empty() {
+            ts.iface_implements.push((format!("I{i}"), parents));
+        }
     }
     let mut imps: Vec<Vec<String>> = vec![vec![]; nobj];
     for (i, _) in ts.interfaces.clone().iter().enumerate() {
-        // at least one implementor
+        // at least one implementor; an implementor lists the interface's parents too
         let must = r.below(nobj);
         for (k, imp) in imps.iter_mut().enumerate() {
-            if k == must || r.chance(1, 2) {
-                imp.push(format!("I{i}"));
+            if k == must || r.chance(1, 3) {
+                let mut add = vec![format!("I{i}")];
+                if let Some(pp) = ts.iface_implements.iter().find(|x| x.0 == format!("I{i}")) {
+                    add.extend(pp.1.iter().cloned());
+                }
+                for a in add {
+                    if !imp.contains(&a) {
+                        imp.push(a);
+                    }
+                }
             }
         }
     }
@@ -373,6 +434,11 @@ fn build_schema(ts: &TypeSys, fast: bool) -> Result<Schema, String> {
         for (f, t) in fs {
             i = i.field(InterfaceField::new(f.clone(), parse_ty(t)));
         }
+        if let Some(pp) = ts.iface_implements.iter().find(|x| &x.0 == n) {
+            for par in &pp.1 {
+                i = i.implement(par.clone());
+            }
+        }
         b = b.register(i);
     }
     for (n, ms) in &ts.unions {
@@ -572,6 +638,8 @@ struct DocGen<'a> {
     frags: Vec<(String, String, String)>,
     uses: Vec<(String, bool, Option<bool>)>,
     dup: bool,
+    /// type conditions range over every composite type, also ones validation would reject
+    any_cond: bool,
 }
 
 fn base(t: &str) -> &str {
@@ -634,7 +702,7 @@ impl DocGen<'_> {
                     emitted += 1;
                 }
             } else if k < 10 && depth > 0 {
-                let conds = self.ts.conds_for(ty);
+                let conds = if self.any_cond && !self.ts.is_root(ty) { self.ts.all_conds() } else { self.ts.conds_for(ty) };
                 if conds.is_empty() {
                     continue;
                 }
@@ -649,7 +717,7 @@ impl DocGen<'_> {
                 }
                 emitted += 1;
             } else if depth > 0 {
-                let conds = self.ts.conds_for(ty);
+                let conds = if self.any_cond && !self.ts.is_root(ty) { self.ts.all_conds() } else { self.ts.conds_for(ty) };
                 if conds.is_empty() {
                     continue;
                 }
@@ -760,12 +828,16 @@ fn main() {
 
     // type systems: the family first, then generated ones
     let mut systems: Vec<Sys> = vec![];
-    let nsys = 1 + (a.n / 60).clamp(2, 40);
+    let nsys = 2 + (a.n / 60).clamp(2, 40);
     let mut srng = rng.fork();
     let mut attempts = 0;
     while systems.len() < nsys && attempts < nsys * 4 {
         attempts += 1;
-        let ts = if systems.is_empty() { family_sys() } else { gen_sys(&mut srng) };
+        let ts = match systems.len() {
+            0 => family_sys(),
+            1 => inherit_sys(),
+            _ => gen_sys(&mut srng),
+        };
         let (strict, fast) = match (build_schema(&ts, false), build_schema(&ts, true)) {
             (Ok(s), Ok(f)) => (s, f),
             (Err(e), _) | (_, Err(e)) => {
@@ -773,7 +845,11 @@ fn main() {
                 continue;
             }
         };
-        let name = if systems.is_empty() { "fam".to_string() } else { format!("sys{}", systems.len()) };
+        let name = match systems.len() {
+            0 => "fam".to_string(),
+            1 => "inh".to_string(),
+            k => format!("sys{k}"),
+        };
         let g = dump_registry(&mut it, strict.registry());
         writeln!(out, "DEF\t{name}\t{g}").unwrap();
         systems.push(Sys { name, ts: Arc::new(ts), strict, fast });
@@ -781,47 +857,62 @@ fn main() {
 
     // fixed corpus on the family: witnesses of the recorded deviations and boundary cases
     // (document, world patches, nullv)
-    let mut corpus: Vec<(&str, Vec<(usize, &str, Out)>, bool)> = vec![];
-    corpus.push(("{ a { id name } }", vec![(0, "a", Out::Ref(2)), (2, "name", Out::Err)], false));
-    corpus.push(("{ id name a { id } }", vec![(0, "a", Out::Ref(2)), (0, "name", Out::Err)], false));
-    corpus.push(("{ a { ... on Pair { t: __typename } } ab { ... on Pair { t: __typename } ... on A { name } } node { ... on Pair { t: __typename } ... on Named { name } } }", vec![(0, "a", Out::Ref(2)), (0, "ab", Out::Ref(2)), (0, "node", Out::Ref(2))], false));
-    corpus.push(("query($s: Boolean = true) { a @skip(if: $s) { id } b @include(if: $s) { id } }", vec![(0, "a", Out::Ref(2)), (0, "b", Out::Ref(3))], false));
-    corpus.push(("{ b { id score } }", vec![(0, "b", Out::Ref(3)), (3, "id", Out::Null)], true));
-    corpus.push(("{ b { id score } }", vec![(0, "b", Out::Ref(3)), (3, "id", Out::Null)], false));
-    corpus.push(("{ id name flag }", vec![(0, "id", Out::Str("x".into())), (0, "name", Out::Int(7)), (0, "flag", Out::Float(2.5))], false));
-    corpus.push(("{ cs { __typename } }", vec![(0, "cs", Out::List(vec![Out::Ref(4), Out::Null]))], false));
-    corpus.push(("{ cs { id } }", vec![(0, "cs", Out::List(vec![Out::Ref(4), Out::Null]))], false));
-    corpus.push(("{ a { __typename } }", vec![(0, "a", Out::Null)], true));
-    corpus.push(("{ a { id } }", vec![(0, "a", Out::Null)], true));
-    corpus.push(("{ cs { id } ab { __typename } }", vec![(0, "cs", Out::Null), (0, "ab", Out::Null)], true));
-    corpus.push(("{ ab { __typename } }", vec![(0, "ab", Out::Null)], true));
-    corpus.push(("{ abs { __typename } }", vec![(0, "abs", Out::List(vec![Out::Ref(2), Out::Null]))], false));
-    corpus.push(("{ ab { __typename } nodes { id } }", vec![(0, "ab", Out::Ref(4))], false));
-    corpus.push(("{ kind k0: kind }", vec![(0, "kind", Out::Enum("ZZ".into()))], false));
-    corpus.push(("{ a { id } a { b { score } } }", vec![(0, "a", Out::Ref(2)), (2, "b", Out::Ref(3)), (3, "score", Out::Err)], false));
-    corpus.push(("mutation { a { id } a { id } k0: id }", vec![(1, "a", Out::Ref(2))], false));
-    corpus.push(("{ a { id } a { name } grid bs { id } }", vec![(0, "a", Out::Ref(2)), (0, "grid", Out::List(vec![Out::List(vec![Out::Int(1), Out::Int(2)]), Out::List(vec![])])), (0, "bs", Out::List(vec![Out::Ref(3), Out::Ref(3)]))], false));
+    let mut corpus: Vec<(usize, bool, &str, Vec<(usize, &str, Out)>, bool)> = vec![];
+    corpus.push((0, false, "{ a { id name } }", vec![(0, "a", Out::Ref(2)), (2, "name", Out::Err)], false));
+    corpus.push((0, false, "{ id name a { id } }", vec![(0, "a", Out::Ref(2)), (0, "name", Out::Err)], false));
+    corpus.push((0, false, "{ a { ... on Pair { t: __typename } } ab { ... on Pair { t: __typename } ... on A { name } } node { ... on Pair { t: __typename } ... on Named { name } } }", vec![(0, "a", Out::Ref(2)), (0, "ab", Out::Ref(2)), (0, "node", Out::Ref(2))], false));
+    corpus.push((0, false, "query($s: Boolean = true) { a @skip(if: $s) { id } b @include(if: $s) { id } }", vec![(0, "a", Out::Ref(2)), (0, "b", Out::Ref(3))], false));
+    corpus.push((0, false, "{ b { id score } }", vec![(0, "b", Out::Ref(3)), (3, "id", Out::Null)], true));
+    corpus.push((0, false, "{ b { id score } }", vec![(0, "b", Out::Ref(3)), (3, "id", Out::Null)], false));
+    corpus.push((0, false, "{ id name flag }", vec![(0, "id", Out::Str("x".into())), (0, "name", Out::Int(7)), (0, "flag", Out::Float(2.5))], false));
+    corpus.push((0, false, "{ cs { __typename } }", vec![(0, "cs", Out::List(vec![Out::Ref(4), Out::Null]))], false));
+    corpus.push((0, false, "{ cs { id } }", vec![(0, "cs", Out::List(vec![Out::Ref(4), Out::Null]))], false));
+    corpus.push((0, false, "{ a { __typename } }", vec![(0, "a", Out::Null)], true));
+    corpus.push((0, false, "{ a { id } }", vec![(0, "a", Out::Null)], true));
+    corpus.push((0, false, "{ cs { id } ab { __typename } }", vec![(0, "cs", Out::Null), (0, "ab", Out::Null)], true));
+    corpus.push((0, false, "{ ab { __typename } }", vec![(0, "ab", Out::Null)], true));
+    corpus.push((0, false, "{ abs { __typename } }", vec![(0, "abs", Out::List(vec![Out::Ref(2), Out::Null]))], false));
+    corpus.push((0, false, "{ ab { __typename } nodes { id } }", vec![(0, "ab", Out::Ref(4))], false));
+    corpus.push((0, false, "{ kind k0: kind }", vec![(0, "kind", Out::Enum("ZZ".into()))], false));
+    corpus.push((0, false, "{ a { id } a { b { score } } }", vec![(0, "a", Out::Ref(2)), (2, "b", Out::Ref(3)), (3, "score", Out::Err)], false));
+    corpus.push((0, false, "mutation { a { id } a { id } k0: id }", vec![(1, "a", Out::Ref(2))], false));
+    corpus.push((0, false, "{ a { id } a { name } grid bs { id } }", vec![(0, "a", Out::Ref(2)), (0, "grid", Out::List(vec![Out::List(vec![Out::Int(1), Out::Int(2)]), Out::List(vec![])])), (0, "bs", Out::List(vec![Out::Ref(3), Out::Ref(3)]))], false));
 
+    // interface hierarchy (system 1: P <- Ch <- G; nodes 2 Plain{P}, 3 Mid{Ch,P}, 4 Deep{G,Ch,P}, 5 Loose{})
+    let ps = || Out::List(vec![Out::Ref(2), Out::Ref(3), Out::Ref(4)]);
+    corpus.push((1, false, "{ ps { ... on Ch { kind: __typename id } } }", vec![(0, "ps", ps())], false));
+    corpus.push((1, false, "fragment N on Ch { name id } { ps { __typename ... on P { ...N } } }", vec![(0, "ps", ps())], false));
+    corpus.push((1, false, "{ ps { ... on G { t: __typename flag } ... on Ch { name } ... on P { id } } us { ... on P { id } ... on Ch { name } ... on G { flag } ... on Loose { t: __typename } } }", vec![(0, "ps", ps()), (0, "us", Out::List(vec![Out::Ref(2), Out::Ref(3), Out::Ref(4), Out::Ref(5)]))], false));
+    corpus.push((1, false, "{ p { ... on Ch { t: __typename } ... on G { id } } chs { ... on G { t: __typename } ... on P { id } } }", vec![(0, "p", Out::Ref(2)), (0, "chs", Out::List(vec![Out::Ref(3), Out::Ref(4)]))], false));
+    corpus.push((1, false, "{ p { ... on Ch { t: __typename } } u { ... on G { t: __typename } ... on U { k: __typename } } }", vec![(0, "p", Out::Ref(2)), (0, "u", Out::Ref(3))], false));
+    corpus.push((1, true, "{ plain { ... on Ch { t: __typename } ... on Mid { id } ... on G { name } } mids { ... on G { t: __typename } ... on Plain { id } ... on Loose { id } } }", vec![(0, "plain", Out::Ref(2)), (0, "mids", Out::List(vec![Out::Ref(3)]))], false));
     let mut case_no = 0;
     let mut corpus_iter = corpus.into_iter();
     while case_no < a.n {
-        let (si, text, vars, opname, world, fast_mode) = if let Some((doc, patches, nullv)) = corpus_iter.next() {
-            let ts = systems[0].ts.clone();
-            let mut nodes: Vec<(String, HashMap<String, Out>)> = ["Query", "Mutation", "A", "B", "C"].iter().map(|t| (t.to_string(), HashMap::new())).collect();
+        let (si, text, vars, opname, world, fast_mode) = if let Some((si, fast, doc, patches, nullv)) = corpus_iter.next() {
+            let ts = systems[si].ts.clone();
+            let tys: &[&str] = if si == 0 { &["Query", "Mutation", "A", "B", "C"] } else { &["Query", "Mutation", "Plain", "Mid", "Deep", "Loose"] };
+            let mut nodes: Vec<(String, HashMap<String, Out>)> = tys.iter().map(|t| (t.to_string(), HashMap::new())).collect();
             for (n, f, o) in patches {
                 nodes[n].1.insert(f.to_string(), o);
             }
             let w = DWorld { sys: ts, nodes, trace: Mutex::new(vec![]), nullv, enum_str: false, vlist: false };
-            (0usize, doc.to_string(), serde_json::json!({}), None, w, false)
+            (si, doc.to_string(), serde_json::json!({}), None, w, fast)
         } else {
-            let si = if rng.chance(1, 2) { 0 } else { rng.below(systems.len()) };
+            let si = match rng.below(6) {
+                0 | 1 => 0,
+                2 => 1,
+                _ => rng.below(systems.len()),
+            };
             let ts = systems[si].ts.clone();
             let fault_pm = [0u64, 0, 0, 30][rng.below(4)];
             let mutate_pm = [0u64, 0, 0, 30, 100][rng.below(5)];
             let world = gen_world(&mut rng.fork(), &ts, fault_pm, mutate_pm);
-            let mut dg = DocGen { ts: &ts, r: rng.fork(), frags: vec![], uses: vec![], dup: rng.chance(1, 2) };
+            let fast_mode = rng.chance(1, 4);
+            // without validation every composite type may appear as a type condition
+            let mut dg = DocGen { ts: &ts, r: rng.fork(), frags: vec![], uses: vec![], dup: rng.chance(1, 2), any_cond: fast_mode && rng.chance(2, 3) };
             let (text, vars, opname) = dg.document();
-            (si, text, vars, opname, world, rng.chance(1, 4))
+            (si, text, vars, opname, world, fast_mode)
         };
         let Ok(parsed) = async_graphql::parser::parse_query(&text) else { continue };
         let sys = &systems[si];
